@@ -548,6 +548,34 @@ func ruleRetrieveHelper(c *Check, p *Prog, rule string) {
 			c.Bad(rule, "RetrieveWithHelpers ⟂ Get-error→StatusError", fnName(fn), p.InstrPos(gets[0].In), "after the ids of a height were listed, a failed Get can be reported as "+strings.Join(wrong, ",")+": the scan (DA retrieval, based sequencer) treats that as an empty or future height and moves past blobs that exist", nil)
 		}
 	}
+	// the class of a failed listing or read is decided by matching the error's text (only the
+	// message survives the transport). What it is matched against is the whole text of one of the
+	// DA interface's sentinels: a shorter fragment ("not found") also matches "header: not found",
+	// "method not found" — a failure of the DA node reported as an empty height, which the scan
+	// moves past for good.
+	for i, mn := range g.Select(func(n *Node) bool {
+		cn := CallName(n)
+		return cn == "strings.Contains" || cn == "strings.HasPrefix" || cn == "strings.HasSuffix" || cn == "strings.EqualFold" || cn == "strings.Index"
+	}) {
+		hay, needle := ArgTerm(mn, 0), ArgTerm(mn, 1)
+		if hay == nil || needle == nil || !p.DeepContains(hay, func(x *Term) bool { return (x.Op == "invoke" || x.Op == "call") && strings.HasSuffix(x.Name, "error).Error") || strings.HasSuffix(x.Name, ".Error") }, 3) {
+			continue
+		}
+		sentinel := p.DeepContains(needle, func(x *Term) bool {
+			v := x.V
+			if u, ok := v.(*ssa.UnOp); ok && u.Op == token.MUL {
+				v = u.X
+			}
+			gl, ok := v.(*ssa.Global)
+			return ok && gl.Pkg != nil && gl.Pkg.Pkg.Path() == daPkg && strings.HasPrefix(gl.Name(), "Err")
+		}, 3)
+		inst := fmt.Sprintf("RetrieveWithHelpers ⟂ error text matched against a whole DA sentinel#%d", i+1)
+		if sentinel {
+			c.OK(rule, inst, fnName(mn.Ctx.Fn), p.InstrPos(mn.In), "the error's text is matched against "+trunc(needle.String(), 60), true)
+		} else {
+			c.Bad(rule, inst, fnName(mn.Ctx.Fn), p.InstrPos(mn.In), "the class of a failed DA request is decided by matching the error's text against "+trunc(needle.String(), 60)+", not against the whole text of a sentinel of the DA interface: unrelated failures of the DA node whose message contains the fragment (\"header: not found\", a misrouted RPC's \"method not found\") are reported as an empty height or a height from the future, and the scan moves past the height without its blobs", nil)
+		}
+	}
 	// chunking: Get(ids[i:min(i+B, len(ids))]) with i = phi(0, i+B)
 	arg := ArgTerm(gets[0], 1)
 	okChunk := false
@@ -689,6 +717,35 @@ func ruleNilGuard(c *Check, p *Prog) {
 			continue
 		}
 		var x ssa.Value
+		// a method call on an interface-typed field of a decoded item (the signer's public key):
+		// absent on the wire, the field is a nil interface and the call panics
+		if ci, ok := n.In.(ssa.CallInstruction); ok && ci.Common().IsInvoke() {
+			if base := TermOf(ci.Common().Value, n.Ctx); base != nil {
+				bv := base.V
+				var owner types.Type
+				var fidx int
+				switch b := bv.(type) {
+				case *ssa.UnOp:
+					if fa, ok := b.X.(*ssa.FieldAddr); ok && b.Op == token.MUL {
+						if pt, ok := fa.X.Type().Underlying().(*types.Pointer); ok {
+							owner, fidx = pt.Elem(), fa.Field
+						}
+					}
+				case *ssa.Field:
+					owner, fidx = b.X.Type(), b.Field
+				}
+				if nt, ok := owner.(*types.Named); ok && nt.Obj().Pkg() != nil && nt.Obj().Pkg().Path() == typesPath {
+					if st, ok := nt.Underlying().(*types.Struct); ok {
+						if _, isIface := st.Field(fidx).Type().Underlying().(*types.Interface); isIface {
+							if r := rootOf(base); r != nil && r.Op == "alloc" {
+								derefs = append(derefs, deref{n, base})
+							}
+						}
+					}
+				}
+			}
+			continue
+		}
 		switch in := n.In.(type) {
 		case *ssa.FieldAddr:
 			x = in.X
